@@ -12,7 +12,8 @@
 #define IS_UNRES(c) (((c) >= _UT('a') && (c) <= _UT('z')) || ((c) >= _UT('A') && (c) <= _UT('Z')) || ((c) >= _UT('0') && (c) <= _UT('9')) \
 	|| (c) == _UT('-') || (c) == _UT('.') || (c) == _UT('_') || (c) == _UT('~'))
 #define IS_HEXUP(c) (((c) >= _UT('0') && (c) <= _UT('9')) || ((c) >= _UT('A') && (c) <= _UT('F')))
-static int ulen(const URI_CHAR *s, int max) { int i; for (i = 0; i < max; i++) if (s[i] == 0) return i; return max; }
+/* constant trip count (the capacity is symbolic; a loop bounded by it would unwind for ever) */
+static int ulen(const URI_CHAR *s, int max) { int i; for (i = 0; i <= UMAX; i++) { if (i >= max) return max; if (s[i] == 0) return i; } return max; }
 static int starts(const URI_CHAR *s, const char *p) { int i; for (i = 0; p[i]; i++) if (s[i] != (URI_CHAR)p[i]) return 0; return 1; }
 
 static void body(int fromUnix) {
